@@ -138,19 +138,27 @@ func (s *summarizer) findLoops() {
 // ordinals are handed out in the order in which the value graph is traversed (shared with inlined callees),
 // so that they do not depend on positions or on whether a helper was extracted.
 type ordinals struct {
-	alloc    map[*ssa.Alloc]int
-	mk       map[ssa.Value]int
-	dyn      map[ssa.Instruction]int
-	dynCount map[string]int
-	clos     map[*ssa.Function]int
-	closList []*ssa.Function
+	alloc       map[*ssa.Alloc]int
+	mk          map[ssa.Value]int
+	dyn         map[ssa.Instruction]int
+	dynCount    map[string]int
+	clos        map[*ssa.Function]int
+	allocByType map[string]int
+	closList    []*ssa.Function
 }
 
 func (o *ordinals) allocOrd(a *ssa.Alloc) int {
 	if n, ok := o.alloc[a]; ok {
 		return n
 	}
-	o.alloc[a] = len(o.alloc)
+	// rank among the locals of the same type (in order of first use): a local of another type that is met earlier or
+	// later (flipped branches, reordered statements) does not shift the number
+	ty := shortType(derefType(a.Type()))
+	if o.allocByType == nil {
+		o.allocByType = map[string]int{}
+	}
+	o.alloc[a] = o.allocByType[ty]
+	o.allocByType[ty]++
 	return o.alloc[a]
 }
 
@@ -1545,6 +1553,7 @@ func (s *summarizer) collect() {
 		s.sum.Loops = append(s.sum.Loops, ls)
 	}
 	s.sum.Closures = append([]*ssa.Function{}, s.ord.closList...)
+	canonicalLoopOrder(s.sum)
 	canonicaliseSequences(s.sum)
 }
 
